@@ -21,6 +21,8 @@ Section Proofs.
 
   Lemma prodC_opt_sym o : prodC (map den (opt_sym o)) = osym ρ o.
   Proof. destruct o; cbn; [apply Cmult_1_r|reflexivity]. Qed.
+  Lemma prodC_opt_expr o : prodC (map den (opt_expr o)) = oexpr ρ o.
+  Proof. destruct o; cbn; [apply Cmult_1_r|reflexivity]. Qed.
   Lemma prodC_opt_num o : prodC (map den (opt_num o)) = onum o.
   Proof. destruct o; cbn; [apply Cmult_1_r|reflexivity]. Qed.
 
@@ -38,7 +40,7 @@ Section Proofs.
   Lemma den_node n : den (node_expr n) = node_sem ρ n.
   Proof.
     unfold node_expr, node_sem. rewrite den_mul, !map_app, !prodC_app.
-    rewrite prodC_cg, !prodC_opt_sym. cbn [map prodC fold_right]. rewrite den_wigner.
+    rewrite prodC_cg, prodC_opt_sym, prodC_opt_expr. cbn [map prodC fold_right]. rewrite den_wigner.
     now rewrite Cmult_1_r.
   Qed.
 
@@ -93,25 +95,37 @@ Section Proofs.
   Lemma wd_add l : allwd l -> wdC ρ (App HAdd l).
   Proof. intros H. cbn. split; [exact H|exact I]. Qed.
 
-  Lemma wd_node n : wdC ρ (node_expr n).
+  (* the assigned lineshapes must themselves be well defined at the point *)
+  Definition dyn_wd (n : hnode) : Prop := match ndyn n with Some e => wdC ρ e | None => True end.
+  Definition chain_wd (c : hchain) : Prop := Forall dyn_wd (cnodes c).
+  Definition data_wd (gs : list hgroup) : Prop := Forall (Forall (Forall chain_wd)) gs.
+
+  Lemma allwd_map_Forall {A} (f : A -> expr) (P : A -> Prop) l :
+    (forall a, P a -> wdC ρ (f a)) -> Forall P l -> allwd (map f l).
+  Proof. intros H HF. induction HF as [|a l' Ha _ IH]; cbn; [exact I|]. split; auto. Qed.
+
+  Lemma wd_node n : dyn_wd n -> wdC ρ (node_expr n).
   Proof.
-    unfold node_expr. apply wd_mul. apply allwd_app.
+    intros Hd. unfold node_expr. apply wd_mul. apply allwd_app.
     { unfold cg_exprs. destruct (nLS n) as [[L S2]|]; cbn; repeat split; auto. }
     apply allwd_app; [destruct (nH n); cbn; auto|].
-    apply allwd_app; [|destruct (ndyn n); cbn; auto].
+    apply allwd_app; [|unfold dyn_wd in Hd; destruct (ndyn n); cbn; auto].
     cbn. repeat split; auto.
   Qed.
-  Lemma wd_chain c : wdC ρ (chain_expr c).
+  Lemma wd_chain c : chain_wd c -> wdC ρ (chain_expr c).
   Proof.
-    unfold chain_expr. apply wd_mul. apply allwd_app; [destruct (cpref c); cbn; auto|].
-    apply allwd_app; [destruct (cC c); cbn; auto|]. apply allwd_map, wd_node.
+    intros Hc. unfold chain_expr. apply wd_mul. apply allwd_app; [destruct (cpref c); cbn; auto|].
+    apply allwd_app; [destruct (cC c); cbn; auto|].
+    eapply allwd_map_Forall; [|exact Hc]. apply wd_node.
   Qed.
-  Lemma wd_group g : wdC ρ (group_expr g).
+  Lemma wd_group g : Forall (Forall chain_wd) g -> wdC ρ (group_expr g).
   Proof.
-    unfold group_expr. cbn [wdC wd_headC wd_cpowQ Qden Qnum map chd0]. repeat split.
-    change (allwd (map amp_expr g)). apply allwd_map. intros a. unfold amp_expr.
-    apply wd_add, allwd_map, wd_chain.
+    intros Hg. unfold group_expr. cbn [wdC wd_headC wd_cpowQ Qden Qnum map chd0]. repeat split.
+    change (allwd (map amp_expr g)). eapply allwd_map_Forall; [|exact Hg]. intros a Ha. unfold amp_expr.
+    apply wd_add. eapply allwd_map_Forall; [|exact Ha]. apply wd_chain.
   Qed.
-  Lemma wd_intensity_expr gs : wdC ρ (intensity_expr gs).
-  Proof. unfold intensity_expr. apply wd_add, allwd_map, wd_group. Qed.
+  Lemma wd_intensity_expr gs : data_wd gs -> wdC ρ (intensity_expr gs).
+  Proof.
+    intros H. unfold intensity_expr. apply wd_add. eapply allwd_map_Forall; [|exact H]. apply wd_group.
+  Qed.
 End Proofs.
